@@ -330,6 +330,9 @@ GEN_SOURCES = {
     "funcs": "int g(void){ return 1; }\nint h(a, b) int a; char b; { return a + b; }\nstatic void k(void){}",
     "stmts": "int m(int x){ switch (x) { case 1: x++; break; case 2: { x--; } default: ; } for (;;) { if (x) continue; else break; } do x++; while (x); L: return x; }",
 }
+# round 8: labels without a statement list of their own (`default:` directly
+# followed by another label) - the early-return paths of visit_Case/visit_Default
+GEN_SOURCES["labels"] = "int n(int x){ switch (x) { default: case 1: x++; case 2: case 3: ; } return x; }"
 GEN_SOURCES["local"] = "void f(int a){ struct L { int x; union { char c; } u; } l; if (a) { enum { P, Q } e; struct M { int m; } mm; } }"
 GEN_ASTS = [
     ("file:nested-compounds", "nested", ""),
@@ -344,6 +347,7 @@ GEN_ASTS = [
     ("bare:FuncDef-K&R", "funcs", "ext[1]"),
     ("bare:Switch", "stmts", "ext[0].body.block_items[0]"),
     ("bare:If-inside-For", "stmts", "ext[0].body.block_items[1].stmt.block_items[0]"),
+    ("bare:Switch-with-empty-default", "labels", "ext[0].body.block_items[0]"),
     # struct / union / enum bodies defined INSIDE a function body, visited as
     # part of the file, of the function, of the enclosing statement, and
     # directly - in every order (sequences), so that one definition node is
